@@ -15,6 +15,7 @@ EXPLANATION = (
     "height (comparisons evaluated at equality), so a clipped horizontal/vertical line keeps contributing; (5) a <use>/<reuse> "
     "carrying only one of x / y is still translated (the translation is reachable with either attribute absent). "
     "Undecided: the extent value itself (union over the bbox rules, transform/clip arithmetic, aspect-ratio derivation)."
+    " A17 (affine abstract evaluation against policy/spec/geometry_algebra.json): the box of each shape from its attributes, combine/intersect/expand/round/translated/width/height are the reference terms."
 )
 TRUSTED = ["BoundingBox::expand/round arithmetic"]
 ASSUMPTIONS = []
